@@ -76,7 +76,8 @@ pub const F_RESTART: usize = 13;
 pub const F_DIRTY_BUF: usize = 14;
 pub const F_GARBAGE: usize = 15;
 pub const F_PANIC_RESTART: usize = 16;
-pub const NF: usize = 17;
+pub const F_BRIDGE: usize = 17;
+pub const NF: usize = 18;
 
 pub const FAULT_NAMES: [&str; NF] = [
     "W1_drop",
@@ -96,6 +97,7 @@ pub const FAULT_NAMES: [&str; NF] = [
     "B1_dirty_buffer_reuse",
     "W6_garbage_transfer",
     "N1_restart_after_panic",
+    "W12_bridge_rewrites_smbus_source",
 ];
 
 #[derive(Default)]
